@@ -307,6 +307,9 @@ func (c *FnCtx) evalConversion(x *ast.CallExpr, to types.Type, st *State) string
 	if fok && tok {
 		switch {
 		case fb.Info()&types.IsInteger != 0 && tb.Info()&types.IsInteger != 0:
+			if c.specMode > 0 {
+				return v // mathematical integers in specifications
+			}
 			lo, hi, _, _ := intRange(tb)
 			flo, fhi, _, _ := intRange(fb)
 			if flo != nil && lo != nil && flo.Cmp(lo) >= 0 && fhi.Cmp(hi) <= 0 {
@@ -356,7 +359,12 @@ func (c *FnCtx) evalConversion(x *ast.CallExpr, to types.Type, st *State) string
 			ln := "(blen " + v + ")"
 			if eb, ok := sl.Elem().Underlying().(*types.Basic); ok && eb.Kind() == types.Int32 {
 				ln = "(runeCount " + v + ")"
-				st.addFact(and("(<= 0 "+ln+")", "(<= "+ln+" (blen "+v+"))"))
+				c.declareFun("runeAt", []string{sString, sInt}, sInt)
+				st.addFact(and("(<= 0 "+ln+")", "(<= "+ln+" (blen "+v+"))", "(= (= "+ln+" 0) (= "+v+" \"\"))",
+					implies("(> "+ln+" 0)", eq(sel(row, "0"), "(runeAt "+v+" 0)")),
+					// bridge to the SMT string for an ASCII first character (lets models be replayed)
+					implies(and("(> "+ln+" 0)", "(< (runeAt "+v+" 0) 128)"), eq("(str.to_code (str.at "+v+" 0))", "(runeAt "+v+" 0)")),
+					implies(and("(> (str.len "+v+") 0)", "(< (str.to_code (str.at "+v+" 0)) 128)"), eq("(str.to_code (str.at "+v+" 0))", "(runeAt "+v+" 0)"))))
 			} else {
 				st.addFact(eq("(strOfBytes "+row+" 0 "+ln+")", v))
 			}
@@ -475,6 +483,23 @@ func (c *FnCtx) evalSpecBuiltin(x *ast.CallExpr, fobj *types.Func, st *State) st
 	case "V_sameslice":
 		a, b := c.eval(x.Args[0], st), c.eval(x.Args[1], st)
 		return and(eq("(sbase "+a+")", "(sbase "+b+")"), eq("(soff "+a+")", "(soff "+b+")"), eq("(slen "+a+")", "(slen "+b+")"))
+	case "V_runeCount":
+		return "(runeCount " + c.eval(x.Args[0], st) + ")"
+	case "V_runeAt":
+		c.declareFun("runeAt", []string{sString, sInt}, sInt)
+		return "(runeAt " + c.eval(x.Args[0], st) + " " + c.eval(x.Args[1], st) + ")"
+	case "V_first", "V_second":
+		vals := c.evalMulti(x.Args[0], st)
+		if len(x.Args) == 2 {
+			vals = []string{c.eval(x.Args[0], st), c.eval(x.Args[1], st)}
+		}
+		if len(vals) != 2 {
+			c.fail(x.Pos(), "first/second need a two-valued argument")
+		}
+		if name == "V_first" {
+			return vals[0]
+		}
+		return vals[1]
 	case "V_sliceprefix":
 		a, b := c.eval(x.Args[0], st), c.eval(x.Args[1], st)
 		return and(eq("(sbase "+a+")", "(sbase "+b+")"), eq("(soff "+a+")", "(soff "+b+")"), "(<= (slen "+a+") (slen "+b+"))")
